@@ -96,4 +96,6 @@ def correspondence(rng, tier):
     r['distinct'] = r.get('distinct', 0) + f.get('distinct', 0)
     r.setdefault('distribution', {})['restore_then_declare'] = f.get('programs', 0)
     r['rule'] = r.get('rule', '') + '; plus restore_then_declare: result() of quantities depending on restored intermediates, reading context id smaller and larger than the writing one (model Archive.v + Kernel.step)'
+    import modcorr
+    modcorr.add_to(r, modcorr.mod_correspondence(rng, tier, 'C06m'), 'mod_fmod', 'x % y and fmod(x, y) of uncertain reals of every structural kind (elementary, dependent, sum, scaled, declared intermediate, constant, mixed) against the model Special.v umod/ufmod (value and the three component vectors bit for bit)')
     return r
